@@ -12,12 +12,20 @@ DESIGN_REF = "DESIGN.md §5 C45"
 
 import os
 _T = int(os.environ.get("VP_PROBE_T", "0"))
-_CUT = sum([["--remove-function-body", f] for f in ("common_timeout_callback", "event_once_cb", "event_loopexit_cb",
-        "evthread_notify_drain_default", "evthread_notify_drain_eventfd")], [])
-def _ob(name, defs, desc, **kw):
-    d = dict(name=name, harness="C45_watchers.c", entry="harness_watchers", sources=["evmap.c"], defines=defs,
-             unwind=8, timeout=600, mem_gb=3, desc=desc,
-             cbmc=["--paths", "lifo"], instrument=[_CUT])
+# Indirect calls are pinned to the harness callbacks: cbmc matches candidates by (loose) signature, and
+# as soon as a watcher/event pointer is an ite() after a state merge every 3-argument function
+# in the binary becomes a candidate (measured: no result).  goto-instrument asserts the pin.
+_PIN = [["--restrict-function-pointer", "event_base_loop.function_pointer_call.5/prepare_cb",
+         "--restrict-function-pointer", "event_base_loop.function_pointer_call.9/check_cb",
+         "--restrict-function-pointer", "event_base_loop.function_pointer_call.7/vp_be_dispatch",
+         "--restrict-function-pointer", "event_persist_closure.function_pointer_call.2/timer_cb",
+         "--restrict-function-pointer", "event_process_active_single_queue.function_pointer_call.2/timer_cb"]]
+ONCE, NONBLOCK = "EVLOOP_ONCE", "EVLOOP_NONBLOCK"
+
+def _ob(name, defs, desc, flags=(ONCE, ONCE), **kw):
+    d = dict(name=name, harness="C45_watchers.c", entry="harness_watchers", sources=["evmap.c"],
+             defines=list(defs) + ["C45_FLAGS=%s" % ",".join(flags)],
+             unwind=8, timeout=600, mem_gb=3, desc=desc, instrument=_PIN)
     d.update(kw)
     if _T: d["timeout"] = _T
     return d
@@ -25,8 +33,8 @@ def _ob(name, defs, desc, **kw):
 def obligations(tier):
     obs = [
         _ob("timer", ["C45_TIMER"], "timer"),
-        _ob("noact", ["C45_FLAGS_SYM"], "2 prepare + 2 check watchers, no actions, 2 loop calls, flags symbolic"),
-        _ob("add", ["C45_ACT_ADD", "C45_FLAGS_SYM"], "callbacks may register a watcher"),
+        _ob("noact_nb", ["C45_POLL_READY=1"], "no actions", flags=(NONBLOCK, ONCE)),
+        _ob("add", ["C45_ACT_ADD"], "callbacks may register a watcher"),
         _ob("evcb", ["C45_EVCB_ACTS"], "event callback frees/adds watchers"),
         _ob("free_self", ["C45_ACT_SELF"], "watcher callbacks may free themselves"),
         _ob("free_other", ["C45_ACT_OTHER"], "watcher callbacks may free another watcher"),
